@@ -27,6 +27,7 @@ EXPLANATION = (
     "column_width (-) display_width(cell) spaces, pad_full = column_width spaces. "
     "T: row shape, column-major reading, equal row widths when no cell protrudes, protrusion instead of failure. "
     "U: display width of the assembled row relies on C10 additivity (paper)."
+    " (R7) same rule as C05.R5; the hyphen splitter and the ASCII-space separator are genuine findings recorded in KNOWN_FINDINGS.txt (a cell ending inside a sequence swallows its padding)."
 )
 ASSUMPTIONS = ["A-rustc", "A-std", "A-mem (padding strings near usize::MAX cannot be allocated)"]
 LEVEL_TEXT = (
@@ -285,6 +286,11 @@ def run(prog, rep):
             return
         _row(prog, rep, m, cw, iw, g[0])
     guarded(rep, "C20.R2", KEY, rest)
+    # ... and a cell must not end inside an escape sequence (same rule as C05.R5), or the padding and the following
+    # cells are swallowed by the unterminated sequence
+    from .C05 import _escape_aware
+    guarded(rep, "C20.R7", "crate", lambda: _escape_aware(
+        prog, rep, rule="C20.R7", consequence="a cell that ends inside a sequence swallows its padding, so rows differ in display width"))
     # equal row widths: the padding of a cell is computed with display_width, whose additivity over the cell text and
     # the padding (C10) makes every padded cell exactly column_width wide, also for text with escape sequences
     from .. import lemmas
